@@ -880,7 +880,7 @@ fn start_server(bin: &std::path::Path, dir: &std::path::Path) -> Result<crate::p
             env: vec![],
             connect: vec![format!("127.0.0.1:{port}").parse().unwrap()],
             cwd: None,
-            dir_arg: None,
+            dir_arg: None, listen: vec![],
         };
         if let Ok(p) = crate::props::binary::spawn(bin, &launch) {
             return Ok(p);
